@@ -772,6 +772,12 @@ pub fn recv_view() -> impl Strategy<Value = Recv> {
         3 => (small_margin(), small_margin()).prop_map(|(a, b)| Recv::nested(a, b)),
     ]
 }
+/// a dimension: usually 0..=max, in 3% of the cases up to 200 (size-dependent fast paths, if a
+/// change introduces one, need shapes well beyond the exhaustive bounds)
+pub fn big_dim(max: u8) -> impl Strategy<Value = u8> {
+    prop_oneof![97 => 0..=max, 3 => 0u8..=200]
+}
+
 /// index relative to a dimension: mostly in range, sometimes == dim, dim+1, huge
 pub fn idx(dim: u8) -> impl Strategy<Value = u64> {
     let d = dim as u64;
@@ -874,7 +880,7 @@ impl Prop for C13 {
         }
     }
     fn strategy(_tier: Tier) -> BoxedStrategy<GridCase> {
-        (0u8..=24, 0u8..=24, recv_any(), any::<u32>())
+        (big_dim(24), big_dim(24), recv_any(), any::<u32>())
             .prop_flat_map(|(cols, rows, recv, seed)| {
                 let (cols, rows) = if cols == 0 || rows == 0 { (0, 0) } else { (cols, rows) };
                 let op = prop_oneof![
@@ -997,7 +1003,7 @@ impl Prop for C14 {
         }
     }
     fn strategy(_tier: Tier) -> BoxedStrategy<GridCase> {
-        (0u8..=16, 0u8..=16, recv_any(), any::<u32>())
+        (big_dim(16), big_dim(16), recv_any(), any::<u32>())
             .prop_flat_map(|(cols, rows, recv, seed)| {
                 let (cols, rows) = if !recv.is_view() && (cols == 0 || rows == 0) { (0, 0) } else { (cols, rows) };
                 let src_kind = prop_oneof![Just(SrcKind::Owned), Just(SrcKind::View), Just(SrcKind::StridedView), Just(SrcKind::ViewMut)];
@@ -1108,7 +1114,7 @@ impl Prop for C15 {
         }
     }
     fn strategy(_tier: Tier) -> BoxedStrategy<GridCase> {
-        (0u8..=48, 0u8..=48, recv_any(), any::<u32>())
+        (big_dim(48), big_dim(48), recv_any(), any::<u32>())
             .prop_flat_map(|(cols, rows, recv, seed)| {
                 let (cols, rows) = if cols == 0 || rows == 0 { (0, 0) } else { (cols, rows) };
                 let op = prop_oneof![
@@ -1424,7 +1430,7 @@ impl Prop for C04 {
         }
     }
     fn strategy(_tier: Tier) -> BoxedStrategy<GridCase> {
-        (0u8..=10, 0u8..=10, recv_view(), any::<u32>(), 2u8..=4)
+        (big_dim(10), big_dim(10), recv_view(), any::<u32>(), 2u8..=4)
             .prop_flat_map(|(cols, rows, recv, seed, alphabet)| {
                 let (ec, er) = (if rows == 0 { 0 } else { cols }, if cols == 0 { 0 } else { rows });
                 // mostly valid arguments (the property's quantifier); some invalid ones, for
